@@ -18,7 +18,7 @@ TDeliveries == TInst.Deliveries
 TPayloads == WithDecodes(TInst.Payloads)
 TKeys == ToSet(TInst.Keys)
 NLines == Len(Rec)
-VARIABLES l, bad
+VARIABLES l, bad, prev
 
 StateOf(p) == [trusted |-> p.trusted, reg |-> p.reg, regTok |-> p.regTok, tokMeta |-> p.tokMeta, bal |-> p.bal,
                minters |-> p.minters, gas |-> p.gas, appr |-> p.appr, fkMeta |-> p.fkMeta, owner |-> p.owner]
@@ -56,8 +56,8 @@ Report(line, r, v, inv) ==
                              spec_ok |-> r.ok, code_ok |-> line.obs.ok,
                              spec |-> IF v = "events" THEN r.ev ELSE IF v = "ret" THEN <<r.ret>> ELSE <<>>,
                              code |-> IF v \in {"events", "frame_events"} THEN line.obs.ev ELSE IF v = "ret" THEN <<line.obs.ret>> ELSE <<>>,
-                             diffs |-> {[field |-> f] : f \in Diffs(r.post, line.post)}, inv |-> inv])>>)
-Init == l = 2 /\ bad = 0
+                             diffs |-> {[field |-> f] : f \in Diffs(r.post, line.post)}, inv |-> inv, dev |-> r.dev])>>)
+Init == l = 2 /\ bad = 0 /\ prev = [none |-> TRUE]
 Next ==
     /\ l <= NLines
     /\ LET line == Rec[l] IN
@@ -65,9 +65,17 @@ Next ==
        ELSE LET r == Apply(StateOf(line.pre), ActOf(line.act))
                 v == Verdict(line, r)
                 inv == InvFailures(StateOf(line.post)) \ InvFailures(StateOf(line.pre))   \* newly broken only
-                accepted == v = "" \/ (r.free /\ v = "outcome")
+                \* a line that is not a step of the code-as-recorded but IS a step of the design means a recorded
+                \* deviation no longer reproduces: accepted
+                asDesigned == v # "" /\ Verdict(line, ApplyIntended(StateOf(line.pre), ActOf(line.act))) = ""
+                accepted == v = "" \/ (r.free /\ v = "outcome") \/ asDesigned
             IN /\ IF accepted /\ inv = {} THEN TRUE ELSE Report(line, r, v, inv)
+               /\ IF v = "" /\ r.dev # "none" THEN PrintT(<<"DEV", r.dev, l>>) ELSE TRUE
                /\ bad' = IF accepted /\ inv = {} THEN bad ELSE bad + 1
+    \* the log must be continuous: each call starts in the state the previous one ended in
+    /\ IF Rec[l].reset \/ "none" \in DOMAIN prev \/ Rec[l].pre = prev THEN TRUE
+       ELSE PrintT(<<"DISCONTINUITY", l>>)
+    /\ prev' = IF Rec[l].reset THEN Rec[l].pre ELSE Rec[l].post
     /\ l' = l + 1
 Accepted ==
     /\ TLCGet("stats").diameter = NLines
